@@ -670,7 +670,8 @@ def _oracle_one(case, impl):
         if S1 is None:
             bad("runs", f"transform(training data) failed with {impl.get('s_train_err')}")
         else:
-            sc = max(np.abs(S0).max(), np.abs(S1).max(), 1e-300)
+            # scale = Σ|terms| of a score (a retained rounding-level component has scores of pure cancellation noise)
+            sc = max(np.abs(S0).max(), np.abs(S1).max(), float(np.abs(X).max() / r * np.abs(Phi).max() * w.sum()), 1e-300)
             if np.abs(S1 - S0).max() > 1e-8 * sc:
                 causes = []
                 if case["normalize"]:
